@@ -71,6 +71,7 @@ type env struct {
 	cbMu   sync.Mutex
 	cbq    []cbVal
 	cbLast cbVal
+	cbSeq  int
 
 	spawned atomic.Int64
 	entered atomic.Int64
@@ -115,7 +116,13 @@ func (e *env) callback() (*composite.Config[supervisor.Runnable], error) {
 	for i, x := range v.cfg {
 		ents[i] = composite.RunnableEntry[supervisor.Runnable]{Runnable: e.children[x.C], Config: x.V}
 	}
-	cfg, err := composite.NewConfig[supervisor.Runnable]("cfg", ents)
+	// every configuration the callback returns carries its sequence number in its name, so that
+	// Runner.String() reveals which one the runner holds
+	e.cbMu.Lock()
+	e.cbSeq++
+	seq := e.cbSeq
+	e.cbMu.Unlock()
+	cfg, err := composite.NewConfig[supervisor.Runnable]("cfg"+strconv.Itoa(seq), ents)
 	if err != nil {
 		e.rec.Emit("Callback err")
 		return nil, err
@@ -157,6 +164,16 @@ func (e *env) quiesce() bool {
 
 func (e *env) snapshot() {
 	e.rec.Emit("State %s", e.runner.GetState())
+	if e.rec.WaitFor("Callback some", 0) {
+		// "CompositeRunner{name: cfg<seq>, entries: <n>}"
+		str := e.runner.String()
+		if i := strings.Index(str, "name: cfg"); i >= 0 {
+			rest := str[i+len("name: cfg"):]
+			if j := strings.Index(rest, ","); j >= 0 {
+				e.rec.Emit("Held %s", rest[:j])
+			}
+		}
+	}
 }
 
 func runScenario(sc Scenario) {
